@@ -36,7 +36,7 @@ for p in props:
     ex = getattr(mod, 'EXHAUSTIVE', None)
     text = ('Exploration by runtime monitoring: the real code is executed on generated / engineered / enumerated '
             'workloads and a deterministic oracle decides every observed execution; held on what was observed, '
-            'not a proof. ' + mod.RULE[:700])
+            'not a proof. ' + (mod.RULE if len(mod.RULE) <= 900 else mod.RULE[:900].rsplit('. ', 1)[0] + '. [...] (full rule: coverage.rule in the evidence file)'))
     if ex:
         text += ' Finite sub-domain enumerated completely: ' + ex['thorough'] + '.'
     checks.append({
